@@ -187,12 +187,41 @@ func TestC13(t *testing.T) {
 		})
 		out.emit("skip", "c13s", []string{hexBytes(data), strings.Join(reqs, ",")}, obs)
 	}
-	for k := 0; k < n; k++ {
-		ty := g.ty(1 + g.r.Intn(3))
-		if isLeafTy(ty) {
-			continue
+	// values whose encoding is offsets only (all variable-size items empty): a truncated offset
+	// table leaves the scratch buffer holding the previous, identical offset
+	u8l := &Ty{Kind: "list", Elem: &Ty{Kind: "u", N: 1}, N: 4}
+	emptySeq := func(k int, inner *Val) *Val {
+		v := &Val{Kind: "seq"}
+		for i := 0; i < k; i++ {
+			v.Seq = append(v.Seq, inner)
 		}
-		v := g.val(ty)
+		return v
+	}
+	type tv struct {
+		ty *Ty
+		v  *Val
+	}
+	var corpus []tv
+	for _, k := range []int{1, 2, 3, 5} {
+		corpus = append(corpus,
+			tv{&Ty{Kind: "list", Elem: u8l, N: 6}, emptySeq(k, &Val{Kind: "seq"})},
+			tv{&Ty{Kind: "vec", Elem: u8l, N: uint64(k)}, emptySeq(k, &Val{Kind: "seq"})},
+			tv{&Ty{Kind: "list", Elem: &Ty{Kind: "list", Elem: u8l, N: 3}, N: 6}, emptySeq(k, &Val{Kind: "seq"})},
+		)
+	}
+	corpus = append(corpus, tv{&Ty{Kind: "cont", Fields: []*Ty{u8l, u8l, u8l}}, &Val{Kind: "cont", Seq: []*Val{{Kind: "seq"}, {Kind: "seq"}, {Kind: "seq"}}}})
+	for k := 0; k < n+len(corpus); k++ {
+		var ty *Ty
+		var v *Val
+		if k < len(corpus) {
+			ty, v = corpus[k].ty, corpus[k].v
+		} else {
+			ty = g.ty(1 + g.r.Intn(3))
+			if isLeafTy(ty) {
+				continue
+			}
+			v = g.val(ty)
+		}
 		for _, kind := range []string{"view", "flat"} {
 			if kind == "flat" && ty.HasBoolSeq() && false {
 				continue
